@@ -62,7 +62,9 @@ class Expression:
         return None
 
     def functionalize(self, out, flags, is_generator=False):
-        name = f'_parse_function_{self.program_id}'
+        # Not "_parse_function_N": that is the entry point of a rule that the
+        # user calls "function_N".
+        name = f'_function_{self.program_id}'
 
         extras = ['_ctx'] if flags.uses_context else []
         params = extras + [str(TEXT), str(POS)] + list(sorted(self.freevars()))
